@@ -96,6 +96,12 @@ class _Renamer(ast.NodeTransformer):
         return node
 
 
+def _is_attr_chain(e) -> bool:
+    while isinstance(e, ast.Attribute):
+        e = e.value
+    return isinstance(e, ast.Name)
+
+
 def _contains(node, kinds) -> bool:
     return any(isinstance(n, kinds) for n in ast.walk(node))
 
@@ -329,6 +335,15 @@ def _inline_site(prog: Program, f: FunctionInfo, body, caller: FunctionInfo, cal
         taken.add(new)
         return new
 
+    pure_body = True
+    for s_ in body:
+        for n in ast.walk(s_):
+            if isinstance(n, (ast.Attribute, ast.Subscript)) and isinstance(getattr(n, "ctx", None), (ast.Store, ast.Del)):
+                pure_body = False
+            if isinstance(n, ast.Call):
+                d_ = ast.unparse(n.func)
+                if not (d_.startswith("np.") or d_.startswith("numpy.") or d_ in ("len", "int", "float", "bool", "min", "max", "abs", "str", "isinstance", "range", "tuple", "list")):
+                    pure_body = False
     is_method = f.cls is not None and not is_static and params and params[0] == "self"
     for p in params:
         if is_method and p == "self":
@@ -349,6 +364,8 @@ def _inline_site(prog: Program, f: FunctionInfo, body, caller: FunctionInfo, cal
             if arg is None:
                 raise AnalysisError(f"cannot bind parameter {p} of {f.qualname}")
         simple = isinstance(arg, ast.Constant) or (isinstance(arg, ast.Name) and arg.id not in callee_assigned)
+        if not simple and pure_body and _is_attr_chain(arg):
+            simple = True  # ``self.lb`` read by a helper that stores nothing and calls only numpy / builtins
         if simple and p not in callee_assigned:
             subst[p] = arg
         else:
